@@ -1,7 +1,7 @@
 (* C04q -- a panic in the iterator handed to HashMap::extend, and in the Into conversion of the
    entry_ref API (companion of C04.v / C04p.v / C04u.v).  Only property theorems (proofs:
    Proofs/PanicFacts2.v; model: Model/PanicOps2.v, tied at level C through the harness operations
-   `extendp` and the `intopanic` arm).
+   `extendp`, the `intopanic` arm, and `predpanic_nth` on the entry-closure operations).
 
    For both scanners, every element layout, every total hash function, every allocator answer
    and EVERY well-formed map (Inv: WF + owns its block + represents the reference map s):
@@ -53,6 +53,34 @@ Theorem C04q_entry_ref_into_panic_occupied_never_converts :
   exists hv i, (i < nb kv t)%nat /\ slot kv t i = Some e /\ m_entry_ref_into_p B hash_of t k occ = occ hv i e.
 Proof. exact entry_ref_into_p_occupied. Qed.
 
+(* the closure handed to replace_entry_with / and_replace_entry_with (HashMap entries and the
+   raw_entry_mut twins, all through RawTable::replace_bucket_with) panics: on a present key the map
+   is well-formed and represents s WITHOUT that key, and the removed element is released exactly
+   once (one destructor event when the type has drop glue, none otherwise); on an absent key the
+   closure never runs and nothing happens *)
+Theorem C04q_replace_entry_with_closure_panic :
+  forall B, WidthOK B -> BackendSpec B -> forall tsize talign needs_drop hash_of, TotalHash hash_of ->
+  forall (t : table kv) (s : spec) k t' o evs,
+  Inv B tsize talign hash_of t s -> m_entry_replace_p B needs_drop hash_of t k = Ok (t', o, evs) ->
+  match lookup s k with
+  | Some e => o = OutUnwind /\ Inv B tsize talign hash_of t' (delete s k) /\ evs = (if needs_drop then [EvDrop e] else [])
+  | None => o = OutNone /\ t' = t /\ evs = []
+  end.
+Proof. exact entry_replace_p_refines. Qed.
+
+(* and_modify(f).or_insert(v), f panicking before it writes: a present key leaves the table
+   IDENTICAL to the pre-state; on an absent key f never runs and v is inserted as by entry().or_insert *)
+Theorem C04q_and_modify_closure_panic :
+  forall B, WidthOK B -> BackendSpec B -> forall tsize talign, LayoutOK tsize talign ->
+  forall needs_drop hash_of, TotalHash hash_of -> forall alloc_refuses (t : table kv) (s : spec) k stamp v t' o evs,
+  Inv B tsize talign hash_of t s ->
+  m_entry_and_modify_p B tsize talign needs_drop true hash_of alloc_refuses t k stamp v = Ok (t', o, evs) ->
+  match lookup s k with
+  | Some _ => o = OutUnwind /\ t' = t /\ evs = []
+  | None => o = OutVal v /\ Inv B tsize talign hash_of t' (put s (mkKV k stamp v))
+  end.
+Proof. exact entry_and_modify_p_refines. Qed.
+
 (* non-vacuity: all-colliding hash, 3 stored pairs, the iterator panics after 2 of 4 pairs *)
 Example C04q_example :
   match run sse2_backend 24 8 true (fun _ : Z => Some 0) false (new_table sse2_backend kv)
@@ -72,3 +100,5 @@ Print Assumptions C04q_extend_iterator_panic.
 Print Assumptions C04q_extend_iterator_panic_loses_nothing.
 Print Assumptions C04q_entry_ref_into_panic_leaves_table_untouched.
 Print Assumptions C04q_entry_ref_into_panic_occupied_never_converts.
+Print Assumptions C04q_replace_entry_with_closure_panic.
+Print Assumptions C04q_and_modify_closure_panic.
